@@ -262,7 +262,9 @@ def write_evidence(mod, prop, tier, seed, results, wall, nviol, only=None):
         "violations": nviol,
     }
     os.makedirs(os.path.join(VERIF, "evidence"), exist_ok=True)
-    json.dump(ev, open(os.path.join(VERIF, "evidence", prop + ".json"), "w"), indent=1)
+    # a filtered run (--only) is a debugging aid: it must not overwrite the property's evidence
+    fname = prop + ".json" if not only else prop + ".partial.json"
+    json.dump(ev, open(os.path.join(VERIF, "evidence", fname), "w"), indent=1)
 
 
 def replay_file(path: str) -> int:
